@@ -54,7 +54,22 @@ pub fn gen_weights(t: &mut Tape, n: usize) -> Vec<f64> {
     if n == 1 {
         return vec![1.0];
     }
-    match t.weighted(&[2, 5, 3]) {
+    match t.weighted(&[2, 4, 3, 3]) {
+        3 => {
+            // arbitrary (non-dyadic) weights: the last one closes the sum; accepted by the
+            // library iff the sum taken in order is within f64::EPSILON of 1
+            let mut w: Vec<f64> = (0..n - 1).map(|_| t.uniform(0.02, 1.0) / n as f64).collect();
+            let s: f64 = w.iter().sum();
+            w.push(1.0 - s);
+            let total: f64 = w.iter().sum();
+            if (total - 1.0).abs() <= f64::EPSILON && w[n - 1] > 0.0 {
+                w
+            } else {
+                let mut v = vec![0.0; n];
+                v[0] = 1.0;
+                v
+            }
+        }
         0 => {
             let k = t.below(n);
             (0..n).map(|i| if i == k { 1.0 } else { 0.0 }).collect()
